@@ -82,6 +82,7 @@ def run(ctx, run):
 
     _grow_before_store(ctx, run)
     _grow_contract(ctx, run, P.need("_vbi_export_grow_buffer_space", EXPORT))
+    _grow_keeps_offset(ctx, run, P.need("_vbi_export_grow_buffer_space", EXPORT))
     _vprintf(ctx, run, P.need("vbi_export_vprintf", EXPORT))
     _print_region(ctx, run)
     _pixfmt(ctx, run)
@@ -155,6 +156,37 @@ def _grow_contract(ctx, run, f):
             run.violation("RF-DOM", key, "_vbi_export_grow_buffer_space returns TRUE on a path that neither found enough free space "
                           "nor grew the buffer: the caller then stores past the capacity", ex.loc(f, i),
                           witness={"dominating": [repr(a) for a in ats]})
+
+
+def _grow_keeps_offset(ctx, run, f):
+    """_vbi_export_grow_buffer_space() makes room behind the write position; it must not move the position: no store
+    to e->buffer.offset, no memset / structure assignment over e->buffer as a whole (that also zeroes the offset: what was
+    written so far is then overwritten from the start and the size reported to vbi_export_mem() is short)."""
+    n = 0
+    for bid, i in flow.all_events(f):
+        e = f.exprs[i]
+        bad = None
+        for lhs, var, op, rhs in flow.stores(f, i):
+            if lhs is None:
+                continue
+            l = f.exprs[ex.skip(f, lhs)]
+            if l["k"] == "mem" and l["member"] == "offset" and ex.pretty(f, ex.skip(f, lhs)).endswith("buffer.offset"):
+                bad = "`%s` stores to the write position" % ex.pretty(f, i)[:60]
+            if l["k"] == "mem" and l["member"] == "buffer" and l.get("in") == "vbi_export":
+                bad = "`%s` overwrites the whole buffer record, the write position included" % ex.pretty(f, i)[:60]
+        if e["k"] == "call" and e.get("callee") in ("memset", "__builtin_memset", "__builtin___memset_chk") and e.get("c"):
+            a0 = ex.pretty(f, e["c"][0])
+            sz = ex.const(f, e["c"][2]) if len(e["c"]) > 2 else None
+            if a0.replace(" ", "").endswith("->buffer") and (sz is None or sz > 16):
+                bad = "`%s` clears the whole buffer record, the write position included" % ex.pretty(f, i)[:60]
+        if bad:
+            n += 1
+            run.violation("RF-NOWRITE", "RF-NOWRITE:_vbi_export_grow_buffer_space:offset", "%s: growing the buffer must keep "
+                          "e->buffer.offset - the bytes exported so far are overwritten from the start and vbi_export_mem() "
+                          "reports a size that is too small" % bad, ex.loc(f, i), witness={"function": f.name})
+    if not n:
+        run.holds("RF-NOWRITE", "RF-NOWRITE:_vbi_export_grow_buffer_space:offset", "_vbi_export_grow_buffer_space never writes "
+                  "e->buffer.offset (no store, no memset of the record)", "%s:%d" % (f.file, f.line), nontrivial=False)
 
 
 def _from(f, operand, callee):
